@@ -543,6 +543,21 @@ def r10_18(ctx: Ctx, rule: str = "R10.18") -> None:
                   "be listed; for one opened by a bytes path the listing holds a bytes name that getinfo() and extractall() refuse", construct="handle name used as text")
 
 
+def r10_19(ctx: Ctx, rule: str = "R10.19") -> None:
+    """needs_password() is true when an encryption coder is present OR a password was supplied: the coder check in _real_get_contents does not
+    take a flag that is already set back - its assignment of `password_protected` stands under `not self.password_protected` (or keeps the
+    old value: `self.password_protected or ...`)."""
+    f = shared.szf(ctx, "_real_get_contents")
+    sets = [n for n in walk(f.node) if isinstance(n, ast.Assign) and norm(n.targets[0]) == "self.password_protected"]
+    ctx.floor(rule, len(sets), 1, "assignment of password_protected in _real_get_contents")
+    for n in sets:
+        guarded = any((not pol) and norm(cd) == "self.password_protected" for cd, pol in q.facts_at(f, n))
+        keeps = isinstance(n.value, ast.BoolOp) and isinstance(n.value.op, ast.Or) and any(norm(v) == "self.password_protected" for v in n.value.values)
+        ctx.check(guarded or keeps or (isinstance(n.value, ast.Constant) and n.value.value is True), rule, f, n, "a password that was supplied keeps needs_password() true",
+                  f"`{norm(n)[:80]}` overwrites the flag that a supplied password had set: an unencrypted archive opened with password='pw' answers needs_password() False",
+                  construct="password flag overwritten")
+
+
 def r10_14(ctx: Ctx, rule: str = "R10.14") -> None:
     """the listing of a write session describes what was ARCHIVED: Worker.archive stores the member's `uncompressed` size on every path - the
     size that went into the stream (the last entry of substreamsinfo.unpacksizes) for a member with a stream, 0 for one without.  _make_file_info
@@ -592,6 +607,7 @@ def run(ctx: Ctx) -> None:
     r10_13(ctx)
     r10_15(ctx)
     r10_16(ctx)
+    r10_19(ctx)
     r10_18(ctx)
     r10_17(ctx)
     r10_12(ctx)
